@@ -2069,6 +2069,16 @@ class NameCheckVisitor(node_visitor.ReplacingNodeVisitor):
             ):
                 result = self._visit_function_body(info)
 
+        if (
+            sys.version_info >= (3, 12)
+            and node.type_params
+            and not info.is_overload
+            and not info.is_evaluated
+        ):
+            # The name set above went into the annotation scope that holds the
+            # type parameters; the function itself belongs to the enclosing scope.
+            self._set_name_in_scope(node.name, node, val)
+
         self.check_typeis(info)
 
         if (
